@@ -174,8 +174,9 @@ PROPS["C10"] = {
                  "C10_wait_zero", "C10_wait_nonzero", "C10_release_all", "C10_release_all_unlock", "C10_released_posted", "C10_no_lost_wakeup",
                  "C10_no_block_after_zero", "C10_wait_at_zero", "C10_record_lifetime", "C10_record_lifetime_ret"]],
     "layers": ["counter", "mux", "vc"],
-    "oracles": {"early-timeout", "stuck", "panic", "crash", "counter-value", "ctr-linearizable", "vc"},
-    "plan": {"quick": [("ctr", 200, 8)], "thorough": [("ctr", 2000, 16)]},
+    "oracles": {"early-timeout", "stuck", "panic", "crash", "counter-value", "ctr-linearizable", "ctr-wait-zero", "waitn-ready", "vc"},
+    "plan": {"quick": [("ctr", 200, 8), ("ctr_big", 60, 8)], "thorough": [("ctr", 2000, 16), ("ctr_big", 600, 16)]},
+    "family_layers": {"ctr_big": ["waitn", "mux", "vc"]},
     "level_text": "Kernel-checked theorems over the Counter model (counter.c and the nsync_wait_n path of nsync_counter_wait statement by statement, counter mutex abstract, any number of threads and deltas): the value history is exactly the prefix sums of the deltas whose CAS succeeded and every add returns the value its own CAS produced (linearizable); value/add(0)/wait only report values the counter held; wait returns 0 only if 0 was held and non-zero only with the deadline expired; when the value is 0 and the lock is free the waiter queue is empty and every record that was queued has waiting cleared and its semaphore posted; a sleeper is never lost; after zero (with a wait registered) no wait reaches the semaphore. Tied to the code by lockstep replay of harness executions of the real counter.c/wait.c through the Counter acceptor.",
     "level_note": "counter_mu is an abstract lock in this layer (justified by C01, whose acceptor replays the same logs). uint32 wrap-around modelled; the library's ASSERTs (no decrement below zero, no increment from zero after a wait) are the API contract. Waits through nsync_wait_n with several objects are C11's subject.",
 }
@@ -213,7 +214,8 @@ PROPS["C08"] = {
                  "C08_waiters_released", "C08_no_lost_wakeup", "C08_notified_waiters_in_progress", "C08_waiting_record", "C08_complete_released", "C08_complete_full_holds",
                  "C08_child_iff_parent", "C08_children_nodup", "C08_unaffected_full_holds", "C08_unaffected", "C08_siblings_unaffected", "C08_parent_and_siblings_unaffected"]],
     "layers": ["note", "mux"],
-    "oracles": {"stuck", "expiry-min", "notify-post", "note-wait", "early-timeout", "panic", "crash", "dead-object"},
+    "extra_corpus": ["C09"],
+    "oracles": {"steplimit", "stuck", "expiry-min", "notify-post", "note-wait", "early-timeout", "panic", "crash", "dead-object"},
     "plan": {"quick": [("note", 150, 8), ("note_f4", 30, 8), ("note_f4b", 20, 8)], "thorough": [("note", 1500, 16), ("note_f4", 300, 16), ("note_f4b", 200, 16)]},
     "harness_args": ["checkplain=1"],
     "level_text": "Kernel-checked theorems over the Note model (note.c and the wait path of nsync_note_wait statement by statement on a forest with parent/children/disconnecting/waiters, note mutexes abstract; unbounded notes, threads, depth, steps): the flag and the API-level 'notified' are one-way, COMPLETENESS (C08_complete: once a note is notified and no activation on it is in progress, its children list is empty and every descendant is notified; with C08_complete_released: every thread waiting on them has been released), every observer history is monotone, a notified note has a cause (notify called or a deadline passed on itself or an ancestor-at-some-time), notify's post-condition, ancestors are never affected, everything on a notifier's recursion stack is notified, and nsync_note_expiry returns the minimum of the creation deadlines on the creation-time path to the root for EVERY note, born notified or not (C08_expiry_min, C08_expiry_min_ret — for the code as repaired by afe43b7). Tied to the code by lockstep replay including a digest of the REAL note forest after every note API return, which the model must reproduce.",
@@ -226,7 +228,7 @@ PROPS["C09"] = {
                  "C09_free_is_exclusive", "C09_no_stuck_state", "C09_wait_has_disconnectors", "C09_disconnecting_count", "C09_no_stuck_state_partial", "C09_no_stuck_state_old_code_witness",
                  "f7_repaired", "f4_not_stuck"]],
     "layers": ["note", "mux"],
-    "oracles": {"stuck", "dead-object", "dead-stack", "panic", "crash"},
+    "oracles": {"steplimit", "stuck", "dead-object", "dead-stack", "panic", "crash"},
     "plan": {"quick": [("note", 150, 8), ("note_f4", 30, 8), ("note_f4b", 20, 8), ("note_f7", 30, 8)], "thorough": [("note", 1500, 16), ("note_f4", 300, 16), ("note_f4b", 200, 16), ("note_f7", 300, 16)]},
     "harness_args": ["checkplain=1"],
     "extra_corpus": ["C08"],
